@@ -3,8 +3,15 @@
    complement of the known-finding classes.
    1: two converters of the set carry the same name format and differ on an attribute of the
       case (from_local takes the first, list_to_local the last);
-   2: eduPersonTargetedID special case: a NameID-wrapped value is empty, or the map's local name
-      for the OID is not spelled "eduPersonTargetedID" (one-directional maps lower-case it). *)
+   3: (REPAIRED by 09ff19a1, finding C17-F3) to_() wraps the values in NameID elements whenever
+      the WIRE name is the eduPersonTargetedID OID, ava_from unwrapped them only when the LOCAL name
+      was eduPersonTargetedID up to case: a map giving the OID another local name got {"NameID":
+      {...}} dictionaries back.
+   2: (REPAIRED by 16472e5d, finding C17-F2) a NameID-wrapped value is empty, or the map's local
+      name for the OID is eduPersonTargetedID in another case (one-directional maps lower-case it).
+   No theorem is guarded by class 2 or 3 any more; they are still computed (`*_cls_reg`, used by
+   Corr.cls) so that a regression is named — the findings being closed, the driver reports such a
+   case as VIOLATION with the failing input. *)
 From Coq Require Import String List Bool Arith.
 From Verif Require Import Base.Str C17.Model C17.Spec C17.Proofs.
 Import ListNotations.
@@ -34,7 +41,24 @@ Definition clash_attr (acs : list conv) (w : wattr) : bool :=
   | _, _ => false
   end.
 
+(* class 3 as it was defined before repair 09ff19a1 (what the *_v1 model gets wrong) *)
+Definition misnamed (o : option string) : bool :=
+  match o with Some c => negb (eptid_name c) | None => false end.
+
 Definition eptid_recv (acs : list conv) (w : wattr) : bool :=
+  match wname w, wnf w with
+  | Some n, Some f =>
+      existsb is_wrapped (wvals w) && String.eqb (strip n) EPTID_OID &&
+      existsb (fun m => misnamed (local_name m n)) (with_format acs f)
+  | _, _ => false
+  end.
+
+Definition eptid_round (acs : list conv) (f : string) (e : string * list string) : bool :=
+  existsb (fun m => sopt_eqb (wire_name m (fst e)) (Some EPTID_OID) && misnamed (local_name m EPTID_OID))
+          (with_format acs f).
+
+(* class 2 as it was defined before the repair (what the *_v0 model gets wrong) *)
+Definition eptid_recv_v0 (acs : list conv) (w : wattr) : bool :=
   match wname w, wnf w with
   | Some n, Some f =>
       existsb is_wrapped (wvals w) && String.eqb (strip n) EPTID_OID &&
@@ -43,7 +67,7 @@ Definition eptid_recv (acs : list conv) (w : wattr) : bool :=
   | _, _ => false
   end.
 
-Definition eptid_round (acs : list conv) (f : string) (e : string * list string) : bool :=
+Definition eptid_round_v0 (acs : list conv) (f : string) (e : string * list string) : bool :=
   existsb (fun m => sopt_eqb (wire_name m (fst e)) (Some EPTID_OID) &&
                     (existsb is_empty (snd e) || negb (sopt_eqb (canon m (fst e)) (Some EPTID_LOCAL))))
           (with_format acs f).
@@ -51,12 +75,27 @@ Definition eptid_round (acs : list conv) (f : string) (e : string * list string)
 Definition send_cls (acs : list conv) (f : string) (a : list (string * list string)) : nat :=
   if existsb (fun e => clash_send acs f (fst e)) a then 1 else 0.
 
+(* the OPEN class: this guards the theorems *)
 Definition recv_cls (acs : list conv) (ws : list wattr) : nat :=
-  if existsb (clash_attr acs) ws then 1 else if existsb (eptid_recv acs) ws then 2 else 0.
+  if existsb (clash_attr acs) ws then 1 else 0.
 
 Definition round_cls (acs : list conv) (f : string) (a : list (string * list string)) : nat :=
-  if existsb (fun e => clash_round acs f (fst e)) a then 1
-  else if existsb (eptid_round acs f) a then 2 else 0.
+  if existsb (fun e => clash_round acs f (fst e)) a then 1 else 0.
+
+(* the same, plus recognition of the repaired classes 3 and 2 (consulted by Corr.cls only when the
+   implementation's output FAILS the spec — which recv_correct / round_correct below exclude for
+   the model whenever the open class is 0).  3 before 2: a map that renames the OID was in both. *)
+Definition recv_cls_reg (acs : list conv) (ws : list wattr) : nat :=
+  match recv_cls acs ws with
+  | 0 => if existsb (eptid_recv acs) ws then 3 else if existsb (eptid_recv_v0 acs) ws then 2 else 0
+  | k => k
+  end.
+
+Definition round_cls_reg (acs : list conv) (f : string) (a : list (string * list string)) : nat :=
+  match round_cls acs f a with
+  | 0 => if existsb (eptid_round acs f) a then 3 else if existsb (eptid_round_v0 acs f) a then 2 else 0
+  | k => k
+  end.
 
 (* ---------------------------------------------------------------- class 0 => guards *)
 Lemma with_format_In acs f m : In m (with_format acs f) <-> In m acs /\ nf m = f.
@@ -88,20 +127,10 @@ Lemma recv_cls_guard acs ws :
   recv_cls acs ws = 0 -> forall w, In w ws -> in_scope_attr acs w -> recv_guard acs w.
 Proof.
   unfold recv_cls. destruct (existsb (clash_attr acs) ws) eqn:E1; [discriminate|].
-  destruct (existsb (eptid_recv acs) ws) eqn:E2; [discriminate|]. intros _ w Hw S n f Hn Hf.
-  pose proof (existsb_false _ _ E1 w Hw) as C1. pose proof (existsb_false _ _ E2 w Hw) as C2.
-  unfold clash_attr in C1. unfold eptid_recv in C2. rewrite Hn, Hf in C1, C2. split.
-  - intros m m' Hm Hm' Hmf Hmf'. apply (differ_false _ _ C1); apply with_format_In; auto.
-  - intros m v Hm Hmf Hv Hwv.
-    destruct S as (n' & f' & Hn' & Hf' & Hwrap). rewrite Hn in Hn'. rewrite Hf in Hf'.
-    injection Hn' as <-. injection Hf' as <-.
-    assert (Hex : existsb is_wrapped (wvals w) = true) by (apply existsb_exists; eauto).
-    destruct (Hwrap Hex) as [Hoid _]. rewrite Hex in C2. apply String.eqb_eq in Hoid. rewrite Hoid in C2.
-    cbn [andb] in C2. apply orb_false_iff in C2 as [Ca Cb]. split.
-    + pose proof (existsb_false _ _ Cb m (proj2 (with_format_In _ _ _) (conj Hm Hmf))) as H. cbn beta in H.
-      apply negb_false_iff in H. apply sopt_eqb_eq in H. exact H.
-    + pose proof (existsb_false _ _ Ca v Hv) as H. cbn beta in H. rewrite Hwv in H. cbn [andb] in H.
-      apply is_empty_false. exact H.
+  intros _ w Hw S n f Hn Hf.
+  pose proof (existsb_false _ _ E1 w Hw) as C1.
+  unfold clash_attr in C1. rewrite Hn, Hf in C1.
+  intros m m' Hm Hm' Hmf Hmf'. apply (differ_false _ _ C1); apply with_format_In; auto.
 Qed.
 
 Lemma round_cls_guard acs f a :
@@ -110,22 +139,23 @@ Lemma round_cls_guard acs f a :
   round_guard acs f a.
 Proof.
   unfold round_cls. destruct (existsb (fun e => clash_round acs f (fst e)) a) eqn:E1; [discriminate|].
-  destruct (existsb (eptid_round acs f) a) eqn:E2; [discriminate|]. intros _ Sym e He.
+  intros _ Sym e He.
   pose proof (existsb_false _ _ E1 e He) as C1. cbn beta in C1.
-  pose proof (existsb_false _ _ E2 e He) as C2.
-  unfold clash_round in C1. apply orb_false_iff in C1 as [Ca Cb]. split; [|split].
+  unfold clash_round in C1. apply orb_false_iff in C1 as [Ca Cb]. split.
   - intros m m' Hm Hm' Hf Hf'. split.
     + apply (differ_false _ _ Ca); apply with_format_In; auto.
     + intros n Hw. pose proof (existsb_false _ _ Cb m (proj2 (with_format_In _ _ _) (conj Hm Hf))) as H.
       cbn beta in H. rewrite Hw in H. apply (differ_false _ _ H); apply with_format_In; auto.
   - intros m n Hm Hf Hw. exact (Sym m Hm Hf _ _ Hw).
-  - intros m Hm Hf Hw. unfold eptid_round in C2.
-    pose proof (existsb_false _ _ C2 m (proj2 (with_format_In _ _ _) (conj Hm Hf))) as H. cbn beta in H.
-    rewrite Hw in H. unfold sopt_eqb at 1 in H. cbn [opt_eqb] in H. rewrite String.eqb_refl in H. cbn [andb] in H.
-    apply orb_false_iff in H as [Hv Hc]. split.
-    + apply negb_false_iff in Hc. apply sopt_eqb_eq in Hc. unfold canon in Hc. rewrite Hw in Hc. exact Hc.
-    + intros v Hin. apply is_empty_false. exact (existsb_false _ _ Hv v Hin).
 Qed.
+
+(* the regression recogniser only ever ADDS classes 3 and 2: it agrees with the open class
+   wherever that is not 0 *)
+Lemma recv_cls_reg_open acs ws : recv_cls acs ws <> 0 -> recv_cls_reg acs ws = recv_cls acs ws.
+Proof. unfold recv_cls_reg. destruct (recv_cls acs ws); congruence. Qed.
+
+Lemma round_cls_reg_open acs f a : round_cls acs f a <> 0 -> round_cls_reg acs f a = round_cls acs f a.
+Proof. unfold round_cls_reg. destruct (round_cls acs f a); congruence. Qed.
 
 (* ---------------------------------------------------------------- the property outside the classes *)
 Theorem send_correct acs f a :
